@@ -75,7 +75,7 @@ var Profiles = map[string]func() Profile{
 		p.W = wts(int(KNewEntity), 12, int(KNewBatch), 4, int(KAdd), 10, int(KRemove), 8, int(KExchange), 6,
 			int(KSetRel), 8, int(KCopy), 2, int(KRemoveEntity), 10, int(KAddBatch), 3, int(KRemoveBatch), 3, int(KExchangeBatch), 2,
 			int(KSetRelBatch), 4, int(KRemoveEntities), 4, int(KReset), 1, int(KShrink), 3, int(KRegFilter), 8, int(KUnregFilter), 6,
-			int(KOpenQuery), 3, int(KStepQuery), 4, int(KCloseQuery), 2)
+			int(KOpenQuery), 7, int(KStepQuery), 5, int(KCloseQuery), 2)
 		p.RelPct = 80
 		p.HotComps = 6
 		p.TargetPool = 5
@@ -243,7 +243,8 @@ var Profiles = map[string]func() Profile{
 		p.W = wts(int(KNewEntity), 14, int(KNewBatch), 5, int(KAdd), 10, int(KRemove), 8, int(KExchange), 5, int(KWrite), 2,
 			int(KSetRel), 8, int(KCopy), 3, int(KRemoveEntity), 10, int(KAddBatch), 3, int(KRemoveBatch), 3, int(KExchangeBatch), 2,
 			int(KSetRelBatch), 4, int(KRemoveEntities), 4, int(KReset), 1, int(KShrink), 4, int(KRegFilter), 3, int(KUnregFilter), 2,
-			int(KRegObs), 3, int(KUnregObs), 2, int(KStats), 8, int(KOpenQuery), 1, int(KStepQuery), 2, int(KCloseQuery), 1)
+			int(KRegObs), 3, int(KUnregObs), 2, int(KStats), 8, int(KOpenQuery), 1, int(KStepQuery), 2, int(KCloseQuery), 1,
+			int(KMisuse), 6) // a rejected call leaves the figures of every existing archetype as they were
 		p.RelPct = 80
 		p.HotComps = 6
 		p.FilterSlots = 3
